@@ -199,6 +199,34 @@ def check(ctx, lib, c):
     cls = "%s-%s:%s" % (gs, op, rel)
     PA, QA = proj_b(g, P, zP, jP), proj_b(g, Qp, zQ, jQ)
     sig = "%s_%s/%s" % (gs, op, "capi" if use_c else "cpp")
+
+    def related():
+        """The same operation directly afterwards on related first arguments: -P with the same z (same x, same denominator,
+        another point), P with the other z, and for G2 a z that shares one coefficient with the first. The operations are functions
+        of their arguments; nothing remembered from the previous call (denominators, inverses, slopes) may leak in."""
+        if op not in ("add", "add_mixed", "dbl", "neg", "from_projective") or P is None:
+            return
+        nP = C.neg(P, K)
+        variants = [("negated, same z", nP, zP), ("same point, other z", P, zQ)]
+        if g == 2 and zP[0] != zQ[0] and zQ[1]:
+            variants.append(("other point, z sharing its first coefficient", nP, (zP[0], zQ[1])))
+        for what, Pt, zt in variants:
+            A1 = proj_b(g, Pt, zt, jP)
+            if op == "add":
+                nc, ncpp, args, size, e1 = gs + "_add", gs + "_add", (A1, QA), psz, C.add(Pt, Qp, K)
+            elif op == "add_mixed":
+                nc, ncpp, args, size, e1 = gs + "_add_mixed", gs + "_add_mixed", (A1, aff_b(lib, g, Qp, jQ)), psz, C.add(Pt, Qp, K)
+            elif op == "dbl":
+                nc, ncpp, args, size, e1 = gs + "_double", gs + "_dbl", (A1,), psz, C.add(Pt, Pt, K)
+            elif op == "neg":
+                nc, ncpp, args, size, e1 = gs + "_negate", gs + "_neg", (A1,), psz, C.neg(Pt, K)
+            else:
+                nc, ncpp, args, size, e1 = gs + "affine_from_projective", gs + "a_from_proj", (A1,), asz, Pt
+            o1 = capi(lib, nc, size, *args)[1] if use_c else lib.op(ncpp, *args)[1]
+            g1 = b_aff(lib, g, o1) if op == "from_projective" else b_proj(g, o1)
+            expect(g1 == e1, sig + "/after-related-call", lambda: "P=%r zP=%r Q=%r, then the same call with %s (z=%r): got %r expected %r" % (P, zP, Qp, what, zt, g1, e1))
+        ctx.event("related-follow-up")
+
     if op == "add":
         exp = C.add(P, Qp, K)
         if use_c:
@@ -270,6 +298,7 @@ def check(ctx, lib, c):
         expect(canonical(out, 2 * fsz), sig + "/noncanonical", lambda: "P=%r zP=%r" % (P, zP))
         expect(got == exp, sig, lambda: "P=%r zP=%r got=%r" % (P, zP, got))
         expect(out[lib.inf_off[g]] in (0, 1), sig + "/flag", "infinity flag byte not 0/1")
+        related()
         return
     else:  # aff_neg
         PAf = aff_b(lib, g, P, jP)
@@ -283,6 +312,7 @@ def check(ctx, lib, c):
     expect(got == exp, sig, lambda: "P=%r zP=%r Q=%r zQ=%r got=%r expected=%r" % (P, zP, Qp, zQ, got, exp))
     if got is not None:
         expect(C.on_curve(got, K), sig + "/offcurve", lambda: "result %r not on the curve" % (got,))
+    related()
 
 
 def prebuild(tier):
